@@ -56,6 +56,8 @@ pub enum Op {
     Probe(u8, u32),
     /// drop the store object and open the same directory again (directory-backed store only)
     Reopen,
+    /// (re)train the wrapper's model on these bytes in the middle of the history (trainable wrappers only)
+    Retrain(Payload),
     /// keyed store only: (key index, data)
     PutKey(u8, Payload),
     GetKey(u8),
@@ -130,6 +132,10 @@ trait Dyn {
     fn reopen(&mut self) -> Option<ZResult<()>> {
         None
     }
+    /// train / re-train the model; records stored earlier must stay readable
+    fn retrain(&mut self, _data: &[u8]) -> Option<ZResult<()>> {
+        None
+    }
     /// labels describing which internal path the store took (compression engaged, ...)
     fn note(&self, _ctx: &mut Ctx) {}
 }
@@ -187,6 +193,31 @@ macro_rules! batch_iter_methods {
 struct Basic<S: BlobStore>(S);
 impl<S: BlobStore> Dyn for Basic<S> {
     core_methods!(0);
+}
+
+/// trainable entropy wrappers (training may happen at any point of the history)
+struct HuffT(HuffmanBlobStore<MemoryBlobStore>);
+impl Dyn for HuffT {
+    core_methods!(0);
+    fn retrain(&mut self, data: &[u8]) -> Option<ZResult<()>> {
+        self.0.add_training_data(&data[..data.len().min(4096)]);
+        Some(self.0.build_tree())
+    }
+}
+struct RansT(RansBlobStore<MemoryBlobStore>);
+impl Dyn for RansT {
+    core_methods!(0);
+    fn retrain(&mut self, data: &[u8]) -> Option<ZResult<()>> {
+        Some(self.0.train(&data[..data.len().min(4096)]))
+    }
+}
+struct DictT(DictionaryBlobStore<MemoryBlobStore>);
+impl Dyn for DictT {
+    core_methods!(0);
+    fn retrain(&mut self, data: &[u8]) -> Option<ZResult<()>> {
+        // dictionary construction is quadratic: same 1 KiB bound as the up-front training
+        Some(self.0.train(&data[..data.len().min(1024)]))
+    }
 }
 
 /// stores implementing `BlobStore + BatchBlobStore + IterableBlobStore`
@@ -403,6 +434,7 @@ fn ops(max_rec: usize, max_ops: usize, keyed: bool, reopen: bool, only_empty: bo
         (2, proptest::collection::vec(any::<u16>(), 0..6).prop_map(Op::GetBatch).boxed()),
         (1, proptest::collection::vec(any::<u16>(), 0..4).prop_map(Op::RemoveBatch).boxed()),
         (1, Just(Op::Flush).boxed()),
+        (1, r.clone().prop_map(Op::Retrain).boxed()),
         (2, (0u8..5, any::<u32>()).prop_map(|(k, r)| Op::Probe(k, r)).boxed()),
     ];
     if reopen {
@@ -651,7 +683,7 @@ fn build_hist_store(ctx: &mut Ctx, cfg: u8, train: &[Payload], cleanup: &mut Opt
             Box::new(Full(ZstdBlobStore::new(MemoryBlobStore::new(), level)))
         }
         "lz4<memory>" => Box::new(Basic(Lz4BlobStore::new(MemoryBlobStore::new()))),
-        "huffman<memory>:untrained" => Box::new(Basic(HuffmanBlobStore::new(MemoryBlobStore::new()))),
+        "huffman<memory>:untrained" => Box::new(HuffT(HuffmanBlobStore::new(MemoryBlobStore::new()))),
         "huffman<memory>:trained" => {
             let mut h = HuffmanBlobStore::new(MemoryBlobStore::new());
             let t = train_bytes(train, 4096);
@@ -660,9 +692,9 @@ fn build_hist_store(ctx: &mut Ctx, cfg: u8, train: &[Payload], cleanup: &mut Opt
                 Ok(()) => ctx.label("trained"),
                 Err(_) => ctx.label("training_refused"),
             }
-            Box::new(Basic(h))
+            Box::new(HuffT(h))
         }
-        "rans<memory>:untrained" => Box::new(Basic(RansBlobStore::new(MemoryBlobStore::new()))),
+        "rans<memory>:untrained" => Box::new(RansT(RansBlobStore::new(MemoryBlobStore::new()))),
         "rans<memory>:trained" => {
             let mut h = RansBlobStore::new(MemoryBlobStore::new());
             let t = train_bytes(train, 4096);
@@ -670,9 +702,9 @@ fn build_hist_store(ctx: &mut Ctx, cfg: u8, train: &[Payload], cleanup: &mut Opt
                 Ok(()) => ctx.label("trained"),
                 Err(_) => ctx.label("training_refused"),
             }
-            Box::new(Basic(h))
+            Box::new(RansT(h))
         }
-        "dictionary<memory>:untrained" => Box::new(Basic(DictionaryBlobStore::new(MemoryBlobStore::new()))),
+        "dictionary<memory>:untrained" => Box::new(DictT(DictionaryBlobStore::new(MemoryBlobStore::new()))),
         "dictionary<memory>:trained" => {
             let mut h = DictionaryBlobStore::new(MemoryBlobStore::new());
             let t = train_bytes(train, 1024);
@@ -680,7 +712,7 @@ fn build_hist_store(ctx: &mut Ctx, cfg: u8, train: &[Payload], cleanup: &mut Opt
                 Ok(()) => ctx.label("trained"),
                 Err(_) => ctx.label("training_refused"),
             }
-            Box::new(Basic(h))
+            Box::new(DictT(h))
         }
         "cached<memory>:write_through" | "cached<memory>:write_back" | "cached<memory>:write_around" => {
             let strat = match name.as_str() {
@@ -1079,6 +1111,23 @@ fn interpret(ctx: &mut Ctx, s: &mut dyn Dyn, m: &mut Model, ops: &[Op]) {
                         ctx.fail("reopen", "err", "", format!("re-opening the directory failed: {e}"));
                         return;
                     }
+                }
+            }
+            Op::Retrain(p) => {
+                let d = p.bytes();
+                let Some(r) = ctx.no_panic("retrain", || s.retrain(&d)) else { return };
+                match r {
+                    None => {}
+                    Some(Ok(())) => {
+                        ctx.label("retrained_mid_history");
+                        if !m.live.is_empty() {
+                            ctx.label("retrained_with_live_records");
+                        }
+                        if !full_scan(ctx, s, m, "after_retrain") {
+                            return;
+                        }
+                    }
+                    Some(Err(_)) => ctx.label("retrain_refused"),
                 }
             }
             Op::PutKey(k, p) => {
